@@ -30,12 +30,16 @@ type genSpec struct {
 	shadow  bool  // C02: a shadow collection that never sees the failing transactions behaves identically
 	restore []int // C07: letters "snapshot -> restore into a fresh collection of capacity c and continue there"
 	rich    bool  // larger alphabet
+	comp    bool  // the schema also has a sorted index and a trigger (computed columns besides bitmap indexes)
 }
 
 func (s genSpec) name() string {
 	sch := "mixed"
 	if s.keyed {
 		sch = "keyed"
+	}
+	if s.comp {
+		sch += "+computed"
 	}
 	return fmt.Sprintf("seq/%s/%s/%s/d%d", sch, s.logger, s.preset, s.depth)
 }
@@ -57,6 +61,10 @@ func (s genSpec) config(capacity int) model.Config {
 	if s.keyed {
 		cfg.Cols = genKeyedCols
 		cfg.Indexes = []string{"n>1", "s=a"}
+	}
+	if s.comp {
+		cfg.Sorted = [][2]string{{"sorted:s", "s"}}
+		cfg.Triggers = [][2]string{{"trig:n", "n"}}
 	}
 	return cfg
 }
